@@ -90,6 +90,7 @@ func (x *runner) runKeyset(sc scenario) {
 		cands[i] = paramsOf(k)
 	}
 	x.tw.Emit(vt.Ev{"ev": "reset", "lvl": "keyset", "cands": cands, "writer": sc.Primary + 1, "scn": string(raw)})
+	defer x.tw.Emit(vt.Ev{"ev": "end"})
 	// the writer: a handle whose primary is the chosen key, or a foreign key with the parameters of the first
 	var wk keySpec
 	var enc tink.StreamingAEAD
